@@ -30,7 +30,7 @@ SKIP = {'Dot11ManagementFrame', 'Dot11ControlTA', 'EAPOL'}   # abstract: covered
 HEAVY = {'BootP', 'DHCP', 'PKTAP', 'Dot11BlockAck', 'RSNEAPOL'}
 # calibrated on this sandbox (16 cores, 90 s / 4 GB per query): the longest buffer every shorter length of which is decided in the quick tier.
 # Byte-walking parsers (option / extension / label / record loops) stop early; the thorough tier goes further (see THOROUGH_MAX).
-QUICK_MAX = {'ICMPv6': 8, 'DNS': 14, 'Dot11Data': 24, 'Dot11QoSData': 13, 'ICMP': 8, 'IP': 20, 'IPv6': 41, 'LLC': 3, 'MPLS': 4, 'RadioTap': 3, 'TCP': 23}
+QUICK_MAX = {'DHCP': 304, 'ICMPv6': 8, 'DNS': 14, 'Dot11Data': 24, 'Dot11QoSData': 13, 'ICMP': 8, 'IP': 20, 'IPv6': 41, 'LLC': 3, 'MPLS': 4, 'RadioTap': 3, 'TCP': 23}
 THOROUGH_MAX = dict(QUICK_MAX)  # long fixed headers: fewer lengths in the quick tier
 
 # classes whose constructor never builds an inner layer through a stub (RawPDU payload or none): one stub mode is enough
